@@ -51,6 +51,14 @@
 //             e.g. X={x0+x1=2,1<=x0<=3,x1>=-2}, context {[2,3]x[-2,-1]} U {[2,3]x[-1,0]} -> {x0+x1=2, x1<=-1}.
 //             Guarded check: base.simplify_using_context_assign.enlargement (polyhedra); powerset-level simplify.*
 //             checks are skipped for that step (without the guard the step fails on that check or on simplify.meet).
+//   KF-C09-5  (powerset layer, grids) approximate_partition_aux (Pointset_Powerset.cc:132-188) splits a grid by a proper
+//             congruence e = n (mod m) of the other grid into the residue classes e = i (mod m), i = 0..m-1 integer
+//             (loop at :177-186).  Points of the grid where e is not an integer belong to no class and are lost:
+//             Pointset_Powerset<Grid>::difference_assign drops points of X \ Y (X = (1/2)Z, Y = 2Z+1 gives 2Z), and
+//             geometrically_covers / geometrically_equals answer true wrongly ({2Z+1} U {2Z} "covers" (1/2)Z).
+//             Guarded checks: grid.difference.sound, grid.q.geometrically_covers, grid.q.geometrically_equals, only
+//             when a proper congruence of a cutting disjunct takes non-integer values on a disjunct being cut and
+//             the error has the direction above (points lost / covering claimed).
 #include "poly_common.hh"
 #include "reflattice_x.hh"
 #include <list>
@@ -591,6 +599,15 @@ struct GProg {
     if (how == 2) { Cg cg = gen_cg(n); m = base; fold_cg(m, cg); g = make_grid(base); g.add_congruence(to_ppl(cg)); c.log << "(a disjunct cut by " << str(cg) << ") " << m.show(); return; }
     size_t k = t.range(0, (long) n - 1); long sh = t.pick(std::vector<long>{1, -1, 2}); m = base; if (!m.empty) { m.p[k] += sh; m.canon(); } g = make_grid(m); c.log << "(a disjunct shifted by " << sh << " along x" << k << ") " << m.show();
   }
+  // KF-C09-5 class: a proper congruence of a disjunct of `cutters' takes non-integer values on a piece
+  static bool nonint(const GUnion& pieces, const PS& cutters) {
+    size_t n = cutters.space_dimension();
+    for (PS::const_iterator d = cutters.begin(), e = cutters.end(); d != e; ++d) { const Congruence_System& cgs = d->pointset().congruences();
+      for (Congruence_System::const_iterator i = cgs.begin(); i != cgs.end(); ++i) { if (i->modulus() == 0) continue;
+        rl::Vec a(n, rl::Q(0)); for (size_t j = 0; j < i->space_dimension(); ++j) a[j] = rl::Q(mpz_class(i->coefficient(Variable(j))));
+        for (size_t k = 0; k < pieces.size(); ++k) { if (pieces[k].empty) continue; rl::Q v0, gq; if (!rl::value_set(pieces[k], a, rl::Q(mpz_class(i->inhomogeneous_term())), v0, gq)) continue; if (!rl::is_int(v0) || !rl::is_int(gq)) return true; } } }
+    return false;
+  }
   bool nontrivial_operand(const GUnion& m) {
     std::vector<size_t> mx; for (size_t i = 0; i < m.size(); ++i) { if (m[i].empty) continue; bool red = false; for (size_t j = 0; j < m.size() && !red; ++j) if (j != i && m[j].contains(m[i]) && (j < i || !m[i].contains(m[j]))) red = true; if (!red) mx.push_back(i); }
     if (mx.size() < 2) return false;   // two non-redundant grids that overlap or are cosets of one another
@@ -639,6 +656,7 @@ struct GProg {
       Obj& q = partner(o); if (o.m.size() > 3 || q.m.size() > 2) { reduce(o, 1); break; } c.log << "  difference_assign ps" << idx(q) << "\n"; if (nt_steps == 0 && (nontrivial_operand(o.m) || nontrivial_operand(q.m))) ++nt_steps;
       GUnion before = o.m; o.ps.difference_assign(q.ps); GUnion got = read(o.ps);
       GUnion gy = got; gy.insert(gy.end(), q.m.begin(), q.m.end());
+      if (kf("KF-C09-5") && nonint(before, q.ps) && !g_included(before, gy)) { c.excluded("KF-C09-5"); o.m = got; arg_unchanged(q, "difference_assign"); break; }
       c.check("grid.difference.sound", g_included(before, gy), [&] { return "difference_assign lost points of X \\ Y: result " + g_show(got) + " X=" + g_show(before) + " Y=" + g_show(q.m); });
       c.check("grid.difference.within", g_included(got, before), [&] { return "difference_assign result not inside X: result " + g_show(got) + " X=" + g_show(before) + " Y=" + g_show(q.m); });
       bool finite = true; for (size_t i = 0; i < before.size(); ++i) for (size_t j = 0; j < q.m.size(); ++j) { rl::Grid z = rl::intersect(before[i], q.m[j]); if (z.empty) continue; if (rl::dim(z) != rl::dim(before[i]) || z.lines.size() != before[i].lines.size()) finite = false; }
@@ -683,6 +701,7 @@ struct GProg {
     case 0: case 1: { Obj& y = partner(o); bool eq = q == 1; if (m.size() + y.m.size() > 8) break; if (nt_steps == 0 && (nontrivial_operand(m) || nontrivial_operand(y.m))) ++nt_steps;
       bool r = eq ? p.geometrically_equals(y.ps) : p.geometrically_covers(y.ps); bool e = eq ? g_equal(m, y.m) : g_included(y.m, m);
       c.log << "  ? " << (eq ? "geometrically_equals ps" : "geometrically_covers ps") << idx(y) << " -> " << r << "\n";
+      if (r && !e && kf("KF-C09-5") && (nonint(y.m, p) || (eq && nonint(m, y.ps)))) { c.excluded("KF-C09-5"); break; }
       c.check(eq ? "grid.q.geometrically_equals" : "grid.q.geometrically_covers", r == e, [&] { return std::string(eq ? "geometrically_equals" : "geometrically_covers") + " answered " + (r ? "true" : "false") + ": X=" + g_show(m) + " Y=" + g_show(y.m); });
       arg_unchanged(y, "geometric comparison"); arg_unchanged(o, "geometric comparison"); break; }
     case 2: case 3: { Obj& y = partner(o); bool st = q == 3; bool r = st ? p.strictly_contains(y.ps) : p.contains(y.ps); c.log << "  ? " << (st ? "strictly_contains ps" : "contains ps") << idx(y) << " -> " << r << "\n"; bool d = doc(m, y.m, st);
